@@ -38,15 +38,22 @@ func retryMenu(h *H, c call) []answer {
 	}
 }
 
+// errExecCtx: attempt errors with structure.  Wrappers of context errors (the run's own context is
+// alive) and — every third one — the error of a failed NESTED run, returned as it is or wrapped:
+// what an exec that drives a sub-flow per attempt returns.  All are ordinary attempt failures.
 var errExecCtx = func() []error {
 	var l []error
 	for i := 0; i < 12; i++ {
-		if i%2 == 0 {
+		switch i % 3 {
+		case 0:
 			l = append(l, fmt.Errorf("attempt-%d inner timeout: %w", i, context.DeadlineExceeded))
-		} else {
+		case 1:
 			l = append(l, fmt.Errorf("attempt-%d inner cancel: %w", i, context.Canceled))
+		default:
+			l = append(l, fmt.Errorf("attempt-%d: sub-flow: %w", i, subRunError()))
 		}
 	}
+	l[0] = subRunError() // a first attempt that fails with a nested run's error, unwrapped
 	return l
 }()
 
@@ -70,6 +77,11 @@ func genC02(tier string) []Scenario {
 					sp := &spec{id: "n", kind: kind, n: n, fb: fb}
 					name := fmt.Sprintf("retry kind=%s N=%d fallback=%v place=%s", kindNames[kind], n, fb, placeName(place))
 					out = append(out, lifecycleScenario(name, sp, place, retryMenu))
+					if n == 2 {
+						// the same node object (inside the same flow object) run again, whatever the
+						// first run came to: every run gets the full budget
+						out = append(out, lifecycleScenarioRuns(name+" runs=2(same objects)", sp, place, retryMenu, 2))
+					}
 				}
 			}
 		}
